@@ -13,6 +13,9 @@ CONSTANTS
   DoEmit = TRUE
   Bug = "none"
   Hist = 2
+  DsHist = 0
+  DsOps = {}
+  NMon = 0
   Shape = "any"
 INVARIANT TypeOK
 INVARIANT InComp
